@@ -1,9 +1,12 @@
 #!/bin/bash
-# tools/all_mutants.sh [log] : run the owning check on every kept seeded change (scratch worktree each); summary at the end
-log="${1:-/tmp/all_mutants.log}"; : > "$log"
-for d in /verif/seeded/*/; do
-  id=$(basename $d); [ -f $d/meta.json ] || continue
-  prop=$(python3 -c "import json;m=json.load(open('$d/meta.json'));print(m.get('property') or m.get('breaks_property'))")
-  /verif/tools/try_mutant.sh $id $prop 2>&1 | grep -E "^RESULT" >> "$log"
+# tools/all_mutants.sh [workers] : run the owning check on every kept seeded change (scratch worktree each), in parallel
+# workers; verdicts are appended to seeded/results.jsonl by try_mutant.sh; summary in /tmp/all_mutants.log
+w="${1:-3}"; log=/tmp/all_mutants.log; : > "$log"
+ls -d /verif/seeded/*/ | while read d; do id=$(basename $d); [ -f $d/meta.json ] || continue
+  prop=$(python3 -c "import json;m=json.load(open('$d/meta.json'));print(m.get('property') or m.get('breaks_property'))"); echo "$id $prop"; done > /tmp/all_mutants.list
+split -n l/$w -d /tmp/all_mutants.list /tmp/all_mutants.part
+for f in /tmp/all_mutants.part*; do
+  ( while read id prop; do /verif/tools/try_mutant.sh $id $prop 2>&1 | grep -E "^RESULT" >> "$log"; done < $f ) &
 done
+wait
 echo "caught=$(grep -c CAUGHT $log) missed=$(grep -c MISSED $log) other=$(grep -vcE 'CAUGHT|MISSED' $log)" >> "$log"
